@@ -13,7 +13,8 @@ flow-insensitive inside a function, byte-range sensitive on memory objects.
   loaded from tainted memory) of loads and stores; tainted arguments of variable-time externals;
   inline asm containing a conditional jump with a tainted input. udiv/urem on tainted operands
   are recorded as notes.
-* declassification: the result of the functions in `declass_ret` is public in the caller.
+* declassification: the result of the functions in `declass_ret` is public in the caller (for every
+  caller, or - when a set of caller names is given - only in those callers).
 """
 from . import asmfx
 from .build import AnalysisBroken
@@ -60,7 +61,8 @@ class Taint:
     def __init__(self, prog, declass_ret=(), max_depth=40, choose=None):
         self.prog = prog
         self.cg = prog.callgraph()
-        self.declass_ret = set(declass_ret)
+        # name -> None (public everywhere) | set of immediate callers in which the result is public
+        self.declass_ret = dict(declass_ret) if isinstance(declass_ret, dict) else {n: None for n in declass_ret}
         self.memo = {}
         self.sinks = {}
         self.notes = {}
@@ -624,7 +626,9 @@ class Taint:
             tcfg = tuple(ccfg[:len(t.params)]) + tuple((False, (), None) for _ in range(len(t.params) - len(ccfg)))
             r_t, outp = self.analyze(t, tcfg, chain + (t.sname,))
             if t.sname in self.declass_ret:
-                r_t = False
+                where = self.declass_ret[t.sname]
+                if where is None or (chain and chain[-1] in where):
+                    r_t = False
             rt = rt or r_t
             for i, rs in enumerate(outp):
                 if not rs or i >= len(argp) or not argp[i]:
